@@ -206,9 +206,9 @@ def body_div0(h):
         want = [255] * n
         h.require('signed-maximum', s_and(*([p[i] == 255 for i in range(n) if i != n - 2] +
                                             [p[n - 2] == ite(neg, 255, 127)])))
-        return [res[0], res[1], p]
+        return [res[0], raw_of(res[1]) if res[0] == 'ok' else res[1], p]
     h.require('payload-is-float', False)
-    return [res[0], res[1]]
+    return [res[0], raw_of(res[1]) if res[0] == 'ok' else res[1]]
 
 
 def body_divpow2(h):
